@@ -27,7 +27,7 @@ class Group:
 
     def __init__(self, name, harness, entry, extract=(), enforce=None, replace=(), loops=False,
                  defines=None, cbmc=(), timeout=900, unwind=None, tags=(), instance=None,
-                 thorough_only=False, bounded=False, replay=None, nondet_static=False, note='', backend=None):
+                 thorough_only=False, bounded=False, replay=None, nondet_static=False, note='', backend=None, gen=None):
         self.name = name
         self.harness = harness
         self.entry = entry
@@ -45,6 +45,7 @@ class Group:
         self.bounded = bounded      # bounded stand-in: never counted as proved
         self.replay = replay        # name of a native replay routine
         self.note = note
+        self.gen = dict(gen or {})  # generated include files: name -> text (shape-dependent macro expansions)
         self.backend = backend      # None = SAT (minisat2); 'cvc5' | 'z3' = SMT2 back end
 
 
@@ -148,6 +149,9 @@ def build_group(g, workdir):
     with open(os.path.join(workdir, 'extracted.inc'), 'w') as f:
         f.write('/* generated on every run by tools/extract.py from %s -- do not edit */\n' % REPO)
         f.write('\n'.join(texts))
+    for name, text in g.gen.items():
+        with open(os.path.join(workdir, name), 'w') as f:
+            f.write(text)
     with open(os.path.join(workdir, 'template_macro.inc'), 'w') as f:
         f.write(X.extract_template_macro())
     with open(os.path.join(workdir, 'cxx_constants.inc'), 'w') as f:
@@ -254,6 +258,12 @@ def run_group(g, trace=False, workroot=None):
         return res
     if bad:
         real = [o for o in bad if o['status'] == 'FAILURE']
+        unw = [o for o in real if '.unwind.' in o['name'] or 'unwinding assertion' in o['desc']]
+        if unw:
+            res.failed = unw
+            res.status = 'UNDECIDED'
+            res.reason = 'unwinding bound too small: %s (%s)' % (unw[0]['name'], unw[0]['desc'])
+            return res
         res.failed = real
         res.status = 'FAILED' if real else 'UNDECIDED'
         if not real:
